@@ -838,10 +838,13 @@ func (r Stack) Reset() {
 reset is a private method called by [Stack.Reset].
 */
 func (r *stack) reset() {
-	var ct int = 0
-	for i := r.ulen(); i > 0; i-- {
-		ct++
-		r.remove(i - 1)
+	r.lock()
+	defer r.unlock()
+
+	// truncate to the configuration slice; nil
+	// slices cannot be addressed by remove.
+	if r.len() > 1 {
+		*r = (*r)[:1]
 	}
 }
 
